@@ -479,9 +479,20 @@ func c16RoundTrip(c *Ctx) {
 	loadFn := c.P.Func("internal/history", "SearchHistory", "Load")
 	if r.Anchor("O-4", "history.(*SearchHistory).Save", save != nil) {
 		n := 0
-		for _, call := range callsMatching(save, false, func(s string) bool { return strings.HasPrefix(s, "encoding/json.Marshal") }) {
-			n++
-			r.Check(ssau.Strip(call.Common().Args[0]) == ssa.Value(save.Params[0]), "O-4", "history.(*SearchHistory).Save#marshals-receiver", c.P.Pos(call.Pos()), "json.Marshal(sh)", "Save marshals something other than the history itself")
+		// in Save itself, or in a method Save calls on the same history
+		holders := []*ssa.Function{save}
+		ssau.ForEachInstr(save, false, func(in ssa.Instruction) {
+			if call, ok := in.(*ssa.Call); ok {
+				if g := call.Common().StaticCallee(); g != nil && g.Blocks != nil && g.Signature.Recv() != nil && len(call.Common().Args) > 0 && call.Common().Args[0] == ssa.Value(save.Params[0]) && ssau.NamedOf(g.Params[0].Type()) == histPkg+".SearchHistory" {
+					holders = append(holders, g)
+				}
+			}
+		})
+		for _, h := range holders {
+			for _, call := range callsMatching(h, false, func(s string) bool { return strings.HasPrefix(s, "encoding/json.Marshal") }) {
+				n++
+				r.Check(ssau.Strip(call.Common().Args[0]) == ssa.Value(h.Params[0]), "O-4", "history.(*SearchHistory).Save#marshals-receiver", c.P.Pos(call.Pos()), "json.Marshal(sh)", "Save marshals something other than the history itself")
+			}
 		}
 		r.Floor("O-4", "marshal calls in Save", n, 1)
 	}
